@@ -24,7 +24,12 @@ def _rand_entry(rng, t, big):
         bs = [x for e in t["entries"] for x in e[:2]] or [0]
         u = rng.random()
         gaps = [(x[1], y[0]) for x, y in zip(t["entries"], t["entries"][1:]) if x[1] < y[0]]
-        if gaps and len(t["entries"]) > 12 and u < 0.5:
+        if len(t["entries"]) > 60 and u < 0.3:
+            # a long tier: an interval that lies across a hundred entries and more (all of them collide)
+            i = rng.randrange(0, len(t["entries"]) // 3)
+            j = rng.randrange(2 * len(t["entries"]) // 3, len(t["entries"]))
+            return [t["entries"][i][0] + rng.choice([0, 1]), t["entries"][j][1] - rng.choice([0, 1]), rng.choice(["n", "m", "", "a"])]
+        if gaps and len(t["entries"]) > 12 and u < 0.65:
             # a long tier: fill a gap (or the part of it that touches one neighbour)
             g = rng.choice(gaps)
             s, e = g
